@@ -49,6 +49,10 @@ CLAIMS = {
          'Alarm::activeTimer/onTimeExpired/enable/disable/cleanup/refresh under unbounded CBMC contracts: the armed delay in ms (64-bit) is never shorter than the wall-clock distance for every distance, the computation starts from max(now, previous target) so one instant is served once, re-arm before the user callback, a callback that disables the alarm leaves it disabled, disable/cleanup disarm. Next-instant functions of the one-shot, weekly and workday alarms: result matches the configuration, is strictly after the current time and no earlier instant matches (ghost witness) - bounded domain (current time < 32 days from the epoch, thorough 1024 days; all masks, seconds of day, calendars symbolic; workday scan by loop contract).',
          'Trusted: printer, CBMC, clock / time-zone / TimerEvent / callback stubs. / and % by 86400 over 32 bits are out of solver reach, hence the bounded domain for the calendar arithmetic (periodicity beyond the window is an unchecked argument). CronAlarm / ccronexpr not covered.',
          'CBMC function contracts (unbounded) + bounded-domain contracts for the calendar arithmetic', '6 C20'),
+ 'C12': ('other',
+         'HTTP RequestParser::parse under an unbounded CBMC contract with size-only strings: for every input and carried-over state no exception, no index outside the buffer, consumed <= given, valid state, termination of both loops, and a start line is only rejected once its CRLF was seen.',
+         'Trusted: printer, CBMC, size-only std::string model (find/substr/operator[] bounds), conversion stubs. Request content, whole-stream segmentation independence and the server pipeline (server_imp.cpp) are not decided.',
+         'CBMC function/loop contracts on mechanically extracted C', '6 C12'),
  'C13': ('other',
          'KeyEventScanner::next total over all bytes x states (loop-free, full domain). Line-editor key handlers and history under unbounded CBMC contracts on an abstract string model (exact lengths, abstract contents): session invariant (history <= 20, history index and cursor in range), no std:: exception escapes, no container indexed out of range, (cursor, length, history index) evolve as in the reference editor; history commands !n / !-n / !! for every stoi result or exception and every history length.',
          'Trusted: printer, CBMC, std::string (size/tag), std::deque, std::stoi, stringstream models; Connection stubs. Text contents of the edited line, telnet negotiation (telnetd.cpp), split_cmdline, node tree and session teardown are not covered.',
